@@ -494,6 +494,79 @@ def r7_cgranges_path(ctx):
     _check_ops(ctx, "C02.R7", cases, "CompoundInterval", "compound x compound through the cgranges branch", cg=True)
 
 
+def r8_parents(ctx):
+    """set operations on located operands: positions are shared only inside one coordinate system.  Two operands are in the
+    same system when their parents agree in id, type, sequence and in their own parent *including its placement*; chunk
+    parents with the same id cut from different places of the chromosome are different systems.  Position-set answers inside a
+    system, no shared position (or the documented refusal under strict_parent_compare) across systems."""
+    from ..genekernel import gene_interp, mk_parent
+    r, repo = ctx.r, ctx.repo
+    it = gene_interp(repo, max_steps=10 ** 9)
+    S = strands(it)
+    st = it.enum("SequenceType")
+    si = lambda a, b, sn="PLUS", p=None: it.apply(ClassTok("SingleInterval"), [a, b, S[sn]], {"parent": p} if p is not None else {}, None, 0)  # noqa: E731
+    ci = lambda bl, sn="PLUS", p=None: it.apply(ClassTok("CompoundInterval"), [[x[0] for x in bl], [x[1] for x in bl], S[sn]],  # noqa: E731
+                                                {"parent": p} if p is not None else {}, None, 0)
+    chrom = lambda name: mk_parent(it, id=name, sequence_type=st["CHROMOSOME"])  # noqa: E731
+
+    def chunk(name, a, b, cname="chr1"):
+        return mk_parent(it, id=name, sequence_type=st["SEQUENCE_CHUNK"], parent=mk_parent(it, location=si(a, b, "PLUS", chrom(cname))))
+
+    def chunk_of_chunk(a, b, a0, b0):
+        inner = mk_parent(it, id="mid", sequence_type=st["SEQUENCE_CHUNK"], location=si(a, b), parent=mk_parent(it, location=si(a0, b0, "PLUS", chrom("chr1"))))
+        return mk_parent(it, id="sub", sequence_type=st["SEQUENCE_CHUNK"], parent=inner)
+    systems = {
+        "no parent": (lambda: None),
+        "chr1": (lambda: chrom("chr1")), "chr2": (lambda: chrom("chr2")),
+        "chunk c at chr1:0-20": (lambda: chunk("c", 0, 20)), "chunk c at chr1:100-120": (lambda: chunk("c", 100, 120)),
+        "chunk c at chr2:0-20": (lambda: chunk("c", 0, 20, "chr2")),
+        "chunk of chunk (mid at chr1:0-40)": (lambda: chunk_of_chunk(5, 25, 0, 40)),
+        "chunk of chunk (mid at chr1:200-240)": (lambda: chunk_of_chunk(5, 25, 200, 240)),
+    }
+    ops = [("has_overlap", {}), ("has_overlap", {"match_strand": True}), ("intersection", {}), ("minus", {}), ("contains", {})]
+    n = 0
+    shapes = [("single", lambda p: si(2, 9, "PLUS", p), lambda p: si(5, 12, "PLUS", p)),
+              ("compound", lambda p: ci([(1, 4), (6, 10)], "PLUS", p), lambda p: ci([(3, 7), (9, 14)], "PLUS", p)),
+              ("compound x single", lambda p: ci([(1, 4), (6, 10)], "PLUS", p), lambda p: si(3, 8, "PLUS", p))]
+    for na, pa in systems.items():
+        for nb, pb in systems.items():
+            same = na == nb
+            for shape, mka, mkb in shapes:
+                a, b = mka(pa()), mkb(pb())
+                A, B = positions(a), positions(b)
+                acls = a.cls_name
+                for op, kw in ops:
+                    n += 1
+                    f = repo.fn("location.location:Location.contains") if op == "contains" else repo.fn(f"{LOC}:{acls}.{op}")
+                    k, v = run(it, f, [b], dict(kw), a)
+                    desc = f"{shape}: a on [{na}], b on [{nb}]: a.{op}(b{', match_strand=True' if kw else ''})"
+                    if op == "has_overlap":
+                        want = bool(A & B) and same
+                        ok = k == "ok" and bool(v) == want
+                    elif op == "contains":
+                        want = same and B <= A
+                        ok = k == "ok" and bool(v) == want
+                    elif op == "intersection":
+                        want = (A & B) if same else set()
+                        ok = k == "ok" and positions(v) == want
+                    else:
+                        want = (A - B) if same else A
+                        ok = k == "ok" and positions(v) == want
+                    r.check(ok, "C02.R8", f.qual, f"{op} {'inside one system' if same else 'across systems'} ({shape})",
+                            f"{desc} -> {k}:{_describe(v) if k == 'ok' and isinstance(v, Obj) else v}; "
+                            f"{'position sets give' if same else 'the operands sit in different coordinate systems: expected'} {sorted(want) if isinstance(want, set) else want}", f)
+                if not same:
+                    for op in ("has_overlap", "intersection", "minus"):
+                        n += 1
+                        f = repo.fn(f"{LOC}:{acls}.{op}")
+                        k, v = run(it, f, [b], {"strict_parent_compare": True}, a)
+                        r.check(k == "raise" and v in ("MismatchedParentException", "NullParentException"), "C02.R8", f.qual,
+                                f"{op} strict across systems ({shape})",
+                                f"{shape}: a on [{na}], b on [{nb}]: a.{op}(b, strict_parent_compare=True) -> {k}:{v if k == 'raise' else ''}; "
+                                f"documented MismatchedParentException", f)
+    r.floor("C02.R8", "located operand evaluations", n, 800)
+
+
 RULES = [
     ("C02.R1", r1_single_single),
     ("C02.R1cmp", r1_compare),
@@ -502,6 +575,7 @@ RULES = [
     ("C02.R1d", r1d_compound_compound),
     ("C02.R6", r6_multi_block),
     ("C02.R7", r7_cgranges_path),
+    ("C02.R8", r8_parents),
 ]
 
 
